@@ -4,6 +4,9 @@
    new_result reads the model's `image_raw + Z` as the generated `Result<ImageRaw, ImageRawError>`.
    Statements only (proofs: Proofs/SrcImageNew.v). *)
 From EG Require Import Base.Prelude Base.Casts Model.Geometry Model.Imageraw Gen.SrcGeometry Gen.SrcImage Gen.SrcImageNew Proofs.SrcImageNew.
+(* the generated definitions that cast to usize (`as usize`, `usize::try_from`) take the width of usize as Casts.UsizeW; the model
+   of this property works with 64-bit usize (exact integers in range): taken at that width *)
+#[local] Existing Instance Casts.usize64_w.
 
 Theorem C09_src_imageraw_new_is_model : forall bpp alt data s,
   0 <= sw s <= u32_max -> 0 <= sh s <= u32_max ->
